@@ -389,7 +389,12 @@ func (k *kit) template(spec TxSpec, m mods) (*transaction.Transaction, []rsigner
 			}
 		case "notary":
 			if !tx.HasAttribute(transaction.NotaryAssistedT) {
-				tx.Attributes = append(tx.Attributes, transaction.Attribute{Type: transaction.NotaryAssistedT, Value: &transaction.NotaryAssisted{NKeys: uint8(mod(a.N, 4))}})
+				nk := mod(a.N, 256)
+				// many keys at a high attribute fee cost more than any account of the cast holds: keep the instance payable
+				if base, err := k.policyInt("getAttributeFee", int64(transaction.NotaryAssistedT)); err == nil && base*int64(nk+1) > 50_0000_0000 {
+					nk = mod(a.N, 4)
+				}
+				tx.Attributes = append(tx.Attributes, transaction.Attribute{Type: transaction.NotaryAssistedT, Value: &transaction.NotaryAssisted{NKeys: uint8(nk)}})
 			}
 		}
 	}
